@@ -89,7 +89,7 @@ def average_overlap_ratio(ref_intervals: Arr(Real, None, 2), est_intervals: Arr(
     ensures(result <= 1, implies(length(matching) == 0, result == 0), label='at-most-1', props="C01")
 
 
-@contract("mir_eval.transcription.precision_recall_f1_overlap", props="C01 C04 C07 C14")
+@contract("mir_eval.transcription.precision_recall_f1_overlap", props="C01 C04 C05 C07 C14")
 def precision_recall_f1_overlap(ref_intervals: Arr(Real, None, 2), ref_pitches: Arr(Real, None), est_intervals: Arr(Real, None, 2), est_pitches: Arr(Real, None),
                                 onset_tolerance: Real = 0.05, pitch_tolerance: Real = 50.0, offset_ratio: Opt(Real) = 0.2, offset_min_tolerance: Real = 0.05,
                                 strict: Bool = False, beta: Real = 1.0) -> Tup(Real, Real, Real, Real):
@@ -100,12 +100,12 @@ def precision_recall_f1_overlap(ref_intervals: Arr(Real, None, 2), ref_pitches: 
     m = length(est_intervals)
     M = mm(n, m, note_rel(ref_intervals, ref_pitches, est_intervals, est_pitches, onset_tolerance, pitch_tolerance, offset_ratio, offset_min_tolerance, strict))
     ensures(implies(n == 0 or m == 0, P == 0 and R == 0 and F == 0 and A == 0), label='empty', props="C04 C01")
-    ensures(implies(n > 0 and m > 0, P == M / m and R == M / n), label='PR-def', props="C04")
+    ensures(implies(n > 0 and m > 0, P == M / m and R == M / n), label='PR-def', props="C04 C05")
     ensures(F == F_beta(P, R, beta), label='F-def', props="C04")
     ensures(0 <= P, P <= 1, 0 <= R, R <= 1, 0 <= F, F <= 1, A <= 1, label='range', props="C01")
 
 
-@contract("mir_eval.transcription.onset_precision_recall_f1", props="C01 C04 C07 C14")
+@contract("mir_eval.transcription.onset_precision_recall_f1", props="C01 C04 C05 C07 C14")
 def onset_precision_recall_f1(ref_intervals: Arr(Real, None, 2), est_intervals: Arr(Real, None, 2), onset_tolerance: Real = 0.05, strict: Bool = False,
                               beta: Real = 1.0) -> Tup(Real, Real, Real):
     requires(beta > 0)
@@ -115,12 +115,12 @@ def onset_precision_recall_f1(ref_intervals: Arr(Real, None, 2), est_intervals: 
     m = length(est_intervals)
     M = mm(n, m, onset_rel(ref_intervals, est_intervals, onset_tolerance, strict))
     ensures(implies(n == 0 or m == 0, P == 0 and R == 0 and F == 0), label='empty', props="C04 C01")
-    ensures(implies(n > 0 and m > 0, P == M / m and R == M / n), label='PR-def', props="C04")
+    ensures(implies(n > 0 and m > 0, P == M / m and R == M / n), label='PR-def', props="C04 C05")
     ensures(F == F_beta(P, R, beta), label='F-def', props="C04")
     ensures(0 <= P, P <= 1, 0 <= R, R <= 1, 0 <= F, F <= 1, label='range', props="C01")
 
 
-@contract("mir_eval.transcription.offset_precision_recall_f1", props="C01 C04 C14")
+@contract("mir_eval.transcription.offset_precision_recall_f1", props="C01 C04 C05 C14")
 def offset_precision_recall_f1(ref_intervals: Arr(Real, None, 2), est_intervals: Arr(Real, None, 2), offset_ratio: Real = 0.2, offset_min_tolerance: Real = 0.05,
                                strict: Bool = False, beta: Real = 1.0) -> Tup(Real, Real, Real):
     requires(beta > 0)
@@ -130,7 +130,7 @@ def offset_precision_recall_f1(ref_intervals: Arr(Real, None, 2), est_intervals:
     m = length(est_intervals)
     M = mm(n, m, offset_rel(ref_intervals, est_intervals, offset_ratio, offset_min_tolerance, strict))
     ensures(implies(n == 0 or m == 0, P == 0 and R == 0 and F == 0), label='empty', props="C04 C01")
-    ensures(implies(n > 0 and m > 0, P == M / m and R == M / n), label='PR-def', props="C04")
+    ensures(implies(n > 0 and m > 0, P == M / m and R == M / n), label='PR-def', props="C04 C05")
     ensures(F == F_beta(P, R, beta), label='F-def', props="C04")
     ensures(0 <= P, P <= 1, 0 <= R, R <= 1, 0 <= F, F <= 1, label='range', props="C01")
 
@@ -238,7 +238,7 @@ def tv_match_notes(ref_intervals: Arr(Real, None, 2), ref_pitches: Arr(Real, Non
     ensures(forall(0, length(result), lambda k: 0 <= result[k][0] and result[k][0] < n and 0 <= result[k][1] and result[k][1] < m), label='pairs-in-range', props="C05")
 
 
-@contract("mir_eval.transcription_velocity.precision_recall_f1_overlap", props="C01 C04 C07 C14")
+@contract("mir_eval.transcription_velocity.precision_recall_f1_overlap", props="C01 C04 C05 C07 C14")
 def tv_prf(ref_intervals: Arr(Real, None, 2), ref_pitches: Arr(Real, None), ref_velocities: Arr(Real, None),
            est_intervals: Arr(Real, None, 2), est_pitches: Arr(Real, None), est_velocities: Arr(Real, None),
            onset_tolerance: Real = 0.05, pitch_tolerance: Real = 50.0, offset_ratio: Opt(Real) = 0.2, offset_min_tolerance: Real = 0.05,
@@ -250,7 +250,7 @@ def tv_prf(ref_intervals: Arr(Real, None, 2), ref_pitches: Arr(Real, None), ref_
     m = length(est_intervals)
     M = mm(n, m, note_rel(ref_intervals, ref_pitches, est_intervals, est_pitches, onset_tolerance, pitch_tolerance, offset_ratio, offset_min_tolerance, strict))
     ensures(implies(n == 0 or m == 0, P == 0 and R == 0 and F == 0 and A == 0), label='empty', props="C04 C01")
-    ensures(implies(n > 0 and m > 0, 0 <= P * m and P * m <= M and P * m == R * n), label='hits-at-most-without-velocity', props="C07 C04")
+    ensures(implies(n > 0 and m > 0, 0 <= P * m and P * m <= M and P * m == R * n), label='hits-at-most-without-velocity', props="C07 C04 C05")
     ensures(F == F_beta(P, R, beta), label='F-def', props="C04")
     ensures(0 <= P, P <= 1, 0 <= R, R <= 1, 0 <= F, F <= 1, A <= 1, label='range', props="C01")
 
